@@ -30,6 +30,7 @@ type PropConfig struct {
 	Bounded     []BoundedCheck `json:"bounded,omitempty"`
 	Level       string     `json:"level,omitempty"`
 	Extra       []string   `json:"extra_checks,omitempty"` // names of built-in auxiliary analyses (k5, k6 …)
+	Templates   []TemplateCheck `json:"templates,omitempty"` // K6: SQL template lemmas
 }
 
 type BoundedCheck struct {
@@ -245,6 +246,18 @@ func cmdCheck(args []string) int {
 			o.ModelVars = fr.ParamTerms
 			all = append(all, &oblResult{O: o, FR: fr})
 		}
+	}
+	for _, tc := range cfg.Templates {
+		obls, und := p.templateObligations(tc)
+		for _, u := range und {
+			undecidedFuncs = append(undecidedFuncs, u)
+			fmt.Printf("UNDECIDED template=%s reason=%s\n", tc.Name, u)
+		}
+		funcsUnder = append(funcsUnder, tc.Function+" (SQL template "+tc.Name+")")
+		for _, o := range obls {
+			all = append(all, &oblResult{O: o, FR: &FuncResult{Key: tc.Function}})
+		}
+		assumed["DuckDB three-valued logic: WHERE keeps a row iff the filter is TRUE; NOT NULL = NULL; IS [NOT] TRUE and COALESCE as in the SQL standard (validated by the SQL replay on refutation)"] = true
 	}
 	var anyFn = firstFunc(p)
 	for _, ln := range cfg.Lemmas {
